@@ -377,7 +377,7 @@ class Check:
     def fail(self, engine, checker, idx, replay_obj, coq_term, what=None, tags=None):
         tags = list(tags or [])
         if isinstance(replay_obj, dict):
-            tags += list(replay_obj.get("tags", []))
+            tags += list(replay_obj.get("tags") or [])
         for e in self.kf:
             if e.get("status") != "known":
                 continue
